@@ -10,8 +10,8 @@ PROP = dict(
     technique="TLA+ spec SamplerSelect.tla model-checked by TLC in two modes. Mode pure (function vectors, B3): Class(key shape) -> Selector -> Lookup with "
               "__default__ fallback -> fields, with the key-shape rules taken from refinery_rules.md / config.md and Honeycomb's published key patterns; every "
               "generated vector is evaluated on a real fileConfig loaded from generated YAML (DetermineSamplerKey, GetSamplerConfigForDestName, "
-              "GetSamplingKeyFieldsForDestName, IsLegacyAPIKey). Mode pipeline (transition tour, B1): actions Ingest (the real Router.batch / Router.event handler: "
-              "environment lookup, batch unmarshalling with field extraction, hand-over to the collector), Decide (real InMemCollector workers on a fake clock, real "
+              "GetSamplingKeyFieldsForDestName, IsLegacyAPIKey). Mode pipeline (transition tour, B1): actions Ingest / IngestRefused (the real Router.batch / Router.event "
+              "handler: environment lookup that answers or fails, batch unmarshalling with field extraction, hand-over to the collector), Decide (real InMemCollector workers on a fake clock, real "
               "SamplerFactory and samplers, transmission of the kept trace) and Reload (real fileConfig.Reload of a rewritten rules file); every generated "
               "transition is replayed into that node and the extracted fields, decision reason and sample key are compared with the model",
     design_ref="DESIGN.md §5 C14",
@@ -20,21 +20,25 @@ PROP = dict(
                "hcaIC_, hbaic_, HCAIC_ and the empty key (403 shapes thorough, 75 quick) x environment and dataset names {prod, web} x DatasetPrefix {unset, cls} x "
                "rules files listing subsets of {prod, web, cls.prod, cls.web} besides __default__ x a __default__ that reads no field / one field, and checks on the "
                "model EnvKeyUsesEnvironment, ClassicKeyUsesDataset (with the prefix), NeverWithoutSampler (fallback to __default__, fields = those of the sampler "
-               "looked up), PrefixSeparates, DocumentedShapes and, on the pipeline, ExtractedIsWhatDeciderReads, DecisionOfOneTarget and the action property "
-               "DecisionFollowsRules (stated on the request, not through the selector function). Stage select: each vector's shape is turned into a family of "
+               "looked up), PrefixSeparates, DocumentedShapes and, on the pipeline, ExtractedIsWhatDeciderReads, DecisionOfOneTarget, NoUnknownEnvironmentIngested (a request whose "
+               "environment lookup fails is refused, so no trace of an environment key is ever decided by __default__ for want of its environment name) and the "
+               "action property DecisionFollowsRules (stated on the request, not through the selector function). Stage select: each vector's shape is turned into a family of "
                "concrete key strings (the character that makes the alphabet, and the characters adjacent to the allowed ranges, at every position) and all "
                "members must give the model's selector, sampler (identified by its distinctive content and type name), field list and classic/not-classic "
                "verdict on a configuration loaded by NewConfig. Stage pipeline: requests with a concrete key of the shape are posted to the real /1/batch handler "
                "(JSON and msgpack bodies, child + root span; thorough also /1/events) of a Router whose environment lookup stands for /1/auth; the spans reach a "
                "real two-worker InMemCollector; after the fake clock's tick the transmitted spans' meta.refinery.reason and meta.refinery.sample_key must be those "
                "of the destination's sampler (every target has its own sampler type / rule name and key fields, field values name their field), the fields that "
-               "sampler reads must have been extracted from every span when the router handed it over, and after a rules reload the newly configured sampler "
-               "must decide (the (previous decision, next request) pairs and reloads between any two rule sets are all replayed).",
+               "sampler reads must have been extracted from every span when the router handed it over, after a rules reload the newly configured sampler "
+               "must decide, and a request whose lookup fails must leave the node as it was (every (previous decision, next msgpack request) pair, every request "
+               "in every encoding from the idle state, and reloads between any two rule sets are replayed).",
     level_note="Bounded: two names, one prefix value, 14 key shapes (7 quick) in the pipeline stage, one concrete key per request there (family members rotate); "
                "names needing URL escaping, the OTLP entry points (which by design extract metadata only at ingestion) and spans arriving from peers are not driven; "
                "the Router's mux and middleware are bypassed (handlers are called directly with the dataset as mux variable). Open reading carried as two "
                "alternatives: whether upper-case A-F count as 'hexadecimal' in a 32-character classic key (the published pattern is lower-case; the code conforms to "
-               "that one). Keys of no documented shape are read as 'not classic', hence resolved by environment (refinery_rules.md names only the two documented "
+               "that one). The failed-lookup behaviour before commit c47e97b (C23's repair: batch carried on with an empty environment and __default__ decided) is kept as "
+               "MC_SamplerSelect_pipe_unpatched.cfg, outside the check; the check reproduces it as a VIOLATION on 84849ee. "
+               "Keys of no documented shape are read as 'not classic', hence resolved by environment (refinery_rules.md names only the two documented "
                "shapes; the statement's 'environment-scoped key' is read as 'any key that is not classic', which is what lets a malformed key fall to "
                "__default__ via an unknown environment). 'Fields extracted at ingestion' is observed as the payload's memoized fields at Collector.AddSpan; "
                "availability at decision time is observed through the sample key carrying the field's value.",
